@@ -17,6 +17,8 @@ jobs.json = {"so": path, "jobs": [ {"id":…, "engines":[option, …], "scripts"
      | {"obj":i,"call":"simulate_long","script":k,"wall":seconds}
        (calibrates the step rate, then runs simulate_script on a copy of script k whose t_max needs about `wall` seconds)
   setup / simulate also report "script_changed": the fields of the caller's RDScript that differ after the call
+  setup / simulate also report "init": what was handed to engineexport_initialize_{grid,graph} (observed by wrapping the
+  library call: the counts, the length of every buffer against the count passed alongside, and the native return code)
   optional per call: "peek": true  -> also report engineexport_get_time() (harness-only observation)
 lines:  B <job> <callindex>      before a call
         R <json>                 result of that call
@@ -34,8 +36,62 @@ def main():
     from strengths.units import UnitsSystem
     lib_path = spec["so"]
 
+    GRID_ARGS = ["w", "h", "d", "n_species", "n_reactions", "n_env", "cell_state", "cell_chstt", "cell_env", "cell_vol", "k", "sub", "sto", "D",
+                 "bc_x", "bc_y", "bc_z", "n_sample", "t_sample"]
+    GRAPH_ARGS = ["n_nodes", "n_species", "n_reactions", "n_env", "n_edges", "edge_i", "edge_j", "edge_sfc", "edge_dst", "cell_state", "cell_chstt",
+                  "cell_env", "cell_vol", "k", "sub", "sto", "D", "n_sample", "t_sample"]
+
+    class LibProxy(object):
+        """the native library with the two initialisation entry points wrapped: records what the marshalling code hands over"""
+        def __init__(self, lib):
+            object.__setattr__(self, "_real", lib)
+            object.__setattr__(self, "last_init", None)
+
+        def __getattr__(self, name):
+            real = getattr(object.__getattribute__(self, "_real"), name)
+            if name not in ("engineexport_initialize_grid", "engineexport_initialize_graph"):
+                return real
+            proxy = self
+
+            def call(*args):
+                names = GRID_ARGS if name.endswith("grid") else GRAPH_ARGS
+                a = dict(zip(names, args))
+                rec = {"fn": name, "nargs": len(args), "bad": []}
+                try:
+                    cnt = {k: int(v.value) for k, v in a.items() if isinstance(v, ctypes.c_int)}
+                    n = cnt["w"] * cnt["h"] * cnt["d"] if "w" in cnt else cnt["n_nodes"]
+                    want = {"cell_state": n * cnt["n_species"], "cell_chstt": n * cnt["n_species"], "cell_env": n,
+                            "k": cnt["n_env"] * cnt["n_reactions"], "sub": cnt["n_species"] * cnt["n_reactions"],
+                            "sto": cnt["n_species"] * cnt["n_reactions"], "D": cnt["n_species"] * cnt["n_env"], "t_sample": cnt["n_sample"]}
+                    if "n_edges" in cnt:
+                        want.update(edge_i=cnt["n_edges"], edge_j=cnt["n_edges"], edge_sfc=cnt["n_edges"], edge_dst=cnt["n_edges"], cell_vol=n)
+                    rec["counts"] = cnt
+                    for k, w in want.items():
+                        got = len(a[k]) if hasattr(a[k], "__len__") else None
+                        if got != w:
+                            rec["bad"].append({"arg": k, "buffer_length": got, "count_passed": w})
+                except Exception as ex:  # noqa
+                    rec["inspect_error"] = type(ex).__name__ + ": " + str(ex)[:100]
+                rc = real(*args)
+                rec["rc"] = int(rc)
+                object.__setattr__(proxy, "last_init", rec)
+                return rc
+            return call
+
+        def __setattr__(self, name, value):
+            setattr(object.__getattribute__(self, "_real"), name, value)
+
     def mk(option):
-        return LibRDEngine(ctypes.CDLL(lib_path), option=option, requires_molecules=(option != "euler"))
+        return LibRDEngine(LibProxy(ctypes.CDLL(lib_path)), option=option, requires_molecules=(option != "euler"))
+
+    def take_init(e, res):
+        try:
+            rec = e._lib.last_init
+            object.__setattr__(e._lib, "last_init", None)
+            if rec is not None:
+                res["init"] = rec
+        except Exception:  # noqa
+            pass
 
     def out(tag, obj):
         sys.stdout.write(tag + " " + (json.dumps(obj) if not isinstance(obj, str) else obj) + "\n")
@@ -125,7 +181,10 @@ def main():
                         meta["meta_error"] = type(ex).__name__
                     res["meta"] = meta
                     fp0 = script_fp(sc)
-                    e.setup(sc)
+                    try:
+                        e.setup(sc)
+                    finally:
+                        take_init(e, res)
                     live = True
                     res["ret"] = None
                     res["script_changed"] = fp_diff(fp0, script_fp(sc))
@@ -182,7 +241,10 @@ def main():
                     else:
                         src = last_out.script
                     fp0 = script_fp(src)
-                    last_out = simulate_script(src, e)
+                    try:
+                        last_out = simulate_script(src, e)
+                    finally:
+                        take_init(e, res)
                     live = False
                     res["ret"] = traj_json(last_out, full=c.get("full", False))
                     res["script_changed"] = fp_diff(fp0, script_fp(src))
